@@ -1308,7 +1308,37 @@ impl<'r> Gen<'r> {
         self.feature(if is_const { "static-const-global" } else { "static-global" });
     }
 
+    /// A constant expression over literals of kind k (folded by the compiler, evaluated by the reference interpreter)
+    fn const_expr(&mut self, k: Kind, depth: usize) -> String {
+        if depth == 0 || self.rng.chance(1, 3) || k == Kind::Bool {
+            return self.literal(k);
+        }
+        let a = self.const_expr(k, depth - 1);
+        let b = self.const_expr(k, depth - 1);
+        self.feature("constant-expression-initializer");
+        if k.is_float() {
+            // typed float arithmetic only (arithmetic on untyped float literals is unspecified across the languages)
+            let op = *self.rng.pick(&["+", "-", "*"]);
+            format!("(({}){} {} ({}){})", kind_name(k), a, op, kind_name(k), b)
+        } else {
+            let op = *self.rng.pick(&["+", "-", "*", "&", "|", "^", "<<", ">>", "/", "%"]);
+            if op == "/" || op == "%" {
+                let one = if k == Kind::UInt { "1u" } else { "1" };
+                format!("(({}){} {} (({}){} | {}))", kind_name(k), a, op, kind_name(k), b, one)
+            } else if op == "<<" || op == ">>" {
+                format!("(({}){} {} (({}){} & 7))", kind_name(k), a, op, kind_name(k), b)
+            } else {
+                format!("(({}){} {} ({}){})", kind_name(k), a, op, kind_name(k), b)
+            }
+        }
+    }
+
     fn const_initializer(&mut self, ty: &Ty) -> String {
+        if let Ty::Num(k, 1) = ty {
+            if self.rng.chance(1, 3) {
+                return self.const_expr(*k, 2);
+            }
+        }
         match ty {
             Ty::Array(inner, n) => {
                 let parts: Vec<String> = (0..*n).map(|_| self.const_initializer(inner)).collect();
